@@ -320,7 +320,7 @@ func TestC06InboundExact(t *testing.T) {
 		h.App.Step()
 		h.SettleReader("connect")
 		c := h.Current()
-		if c == nil || !c.State.Accepted {
+		if c == nil || !c.Accepted() {
 			h.Failf("no connection")
 		}
 		if !coalesce {
